@@ -148,7 +148,7 @@ class World(BaseWorld):
             if matrix and labels and not any(labels[-1] in k for k in terms):
                 terms[(labels[-1],)] = coef()     # make max_index what the label list says
         if rng.random() < c["p_offset"]:
-            terms[()] = rng.choice(coefs + [7, -5])
+            terms[()] = rng.choice(coefs + [7 * c.get("coef_scale", 1), -5 * c.get("coef_scale", 1)])
         if mtype == "dict" and n >= 2 and rng.random() < c.get("p_zero_entry", 0.1):
             # a plain dict may carry explicit zero coefficients (over labels the model has anyway)
             used = sorted({l for k in terms for l in k}, key=sort_key)
@@ -273,7 +273,7 @@ class World(BaseWorld):
             new.append([[big], 1])
             new.append([[big], -1])
         elif labels and not new:
-            new.append([enc_key((rng.choice(labels),)), rng.choice([1, -1, 2])])
+            new.append([enc_key((rng.choice(labels),)), rng.choice([1, -1, 2]) * self.cfg.get("coef_scale", 1)])
         if not new:
             return None
         m["edits"] = list(m.get("edits", [])) + new
@@ -1000,6 +1000,14 @@ def gen_cfg(rng, prop, tier):
         "dist_n": 20000,
         "n_calls": rng.choice([1, 3, 8, 16, 24]),
     }
+    # coefficient scale: the same models in very small or very large units (all still exactly representable, every
+    # partial sum exact), and large odd integers that need more than 24 significant bits
+    sc = rng.choice([1, 1, 1, 1, 1, 1, 1, 2.0 ** -45, 2.0 ** -20, 2 ** 20])
+    if sc != 1:
+        cfg["coefs"] = [x * sc for x in cfg["coefs"]]
+        cfg["coef_scale"] = sc
+    elif rng.random() < 0.08:
+        cfg["coefs"] = [2 ** 24 + 1, -(2 ** 24 + 1), 2 ** 24 + 3, 3, -1, 2 ** 31 + 1]
     if prop == "C12":
         cfg["p_matrix"] = rng.choice([0.5, 0.8, 1.0])
         cfg["p_init"] = rng.choice([0.6, 0.9, 1.0])
@@ -1072,8 +1080,9 @@ def shrink_op(op):
         out.append(dict(op, temperature_range=None))
     if op.get("seed") not in (None, 0):
         out.append(dict(op, seed=0))
+    plain = all(2 ** -10 <= abs(v) <= 2 ** 10 for _, v in m["terms"])     # never mix units: partial sums must stay exact
     for k, v in m["terms"]:
-        if v not in (1, -1):
+        if v not in (1, -1) and plain:
             t = [[kk, (1 if vv > 0 else -1) if kk == k else vv] for kk, vv in m["terms"]]
             if not m["edits"]:
                 out.append(dict(op, model=dict(m, terms=t)))
